@@ -35,11 +35,43 @@ def check_min_accumulator(ctx, A, f, pred, name, rule, role='min', same_candidat
     want = 'lt' if role == 'min' else 'gt'
     stored = []
     n = 0
+    v = A.view(f)
+    blk_of = {}
+    for b in v.blocks:
+        for eid in b.get('e', []):
+            blk_of[eid] = b['id']
+
+    def first_candidate(d):
+        """an unconditional store is the first candidate when no other non-sentinel store of the same accumulator can reach it without
+        passing through a reset of the accumulator to its sentinel"""
+        resets = set(blk_of[x['eid']] for x in ups if x['acc'] == d['acc'] and x['form'] == 'plain' and is_sentinel_value(x['stored']))
+        target = blk_of[d['eid']]
+        for o in ups:
+            if o is d or o['acc'] != d['acc'] or (o['form'] == 'plain' and is_sentinel_value(o['stored'])):
+                continue
+            seen = set()
+            work = [s_ for s_ in v.succs(blk_of[o['eid']])]
+            if blk_of[o['eid']] == target and o['eid'] < d['eid']:
+                return False
+            while work:
+                x = work.pop()
+                if x in seen or x in resets:
+                    continue
+                seen.add(x)
+                if x == target:
+                    return False
+                work.extend(v.succs(x))
+        return True
     for d in ups:
         inst = '%s: %s update at line %s' % (f['q'].replace(L, '').replace('simgrid::kernel::', ''), name, d['line'])
         key = '%s|%s|%s' % (rule, f['q'].rsplit('::', 1)[-1], name)
         if d['form'] == 'plain':
             ok = is_sentinel_value(d['stored'])
+            if not ok and first_candidate(d):
+                ctx.holds(rule, inst, where(f, d['line']), 'first candidate after the reset: %s' % ex.pretty(d['stored']))
+                stored.append(d['stored'])
+                n += 1
+                continue
             ctx.check(ok, rule, inst, where(f, d['line']), 'reset to %s' % ex.pretty(d['stored']) if ok else
                       'unconditional store of %s: the accumulator no longer holds the %s of what was compared' % (ex.pretty(d['stored']), role), key=key + ' reset')
             continue
